@@ -238,6 +238,19 @@ func c18Cases(thorough bool) []c18Case {
 		}
 	}
 
+	// ---- F: lasting refusals (a run that cannot mirror a selected tag must not report success)
+	for _, fault := range []string{"tgt-refuses:v1", "tgt-refuses:v2", "tgt-refuses:latest", "src-blob-gone"} {
+		for _, par := range []int{0, 1, 2} {
+			for _, p := range []c18Pop{{"S-base", "T-empty"}, {"S-base", "T-part"}, {"S-idx", "T-moved"}} {
+				for _, act := range []string{"copy", "missing"} {
+					cs = append(cs, c18Case{Block: "F", Entries: []c18Entry{{Type: "repository", Allow: []string{"v.*", "latest"}}}, Parallel: par, Action: act, Src: p.Src, Tgt: p.Tgt, Fault: fault})
+					cs = append(cs, c18Case{Block: "F", Entries: []c18Entry{{Type: "registry", Allow: []string{"v.*", "latest"}}}, Parallel: par, Action: act, Src: p.Src, Tgt: p.Tgt, Fault: fault})
+					cs = append(cs, c18Case{Block: "F", Entries: []c18Entry{{Type: "image", SrcTag: "v1", TgtTag: "v1"}, {Type: "image", SrcTag: "v2", TgtTag: "v2", TgtRepo: "mirror/two"}}, Parallel: par, Action: act, Src: p.Src, Tgt: p.Tgt, Fault: fault})
+				}
+			}
+		}
+	}
+
 	// ---- E
 	rl := [][]string{nil, {"proj/app"}, {"proj/.*"}, {"proj/app|proj/lib"}, {".*lib"}}
 	ePops := []c18Pop{{"S-base", "T-extra"}, {"S-near", "T-empty"}, {"S-idx", "T-moved"}, {"S-base", "T-part"}}
